@@ -518,6 +518,12 @@ def run(ctx):
             ctx.ob("R-C16.6", ap, "option-%s-reaches-tree-config" % name, ok, "Config::%s(our_config.%s)" % (setter, name) if ok else "option %s is not handed to lsm_tree::Config::%s (got %s): the tree would run with a default" % (name, setter, got))
         ctx.floor("R-C16.6", "options handed to the tree config", n_set, 13)
 
+    # ---- borrowed obligations (mechanisms owned by other properties that this property's verdict also rests on)
+    # an existing keyspace is never created a second time with other options
+    ctx.borrow("C12", ["R-C12.7"], "R-C16.6")
+    # a keyspace is maintained with its OWN settings
+    ctx.borrow("C12", ["R-C12.10"], "R-C16.7")
+
 
 def cross(ctx, D):
     """thorough tier: cross-check the reviewed table of strategy keys / widths against the pinned lsm-tree's own
